@@ -46,10 +46,12 @@ func (f *Frame) siteAsserts(instr ssa.Instruction, cc *ssa.CallCommon, calleeNam
 	for _, a := range top.contract.Asserts {
 		// "call? X": the same, but a function without any call of X satisfies the clause
 		// vacuously (for clauses of the form "X is called only when ...")
-		if !strings.HasPrefix(a.Anchor, "call ") && !strings.HasPrefix(a.Anchor, "call? ") {
+		// "call! X": the same, and the function has to call X at all: a function without a call of X
+		// fails the clause (for results that only X can produce)
+		if !strings.HasPrefix(a.Anchor, "call ") && !strings.HasPrefix(a.Anchor, "call? ") && !strings.HasPrefix(a.Anchor, "call! ") {
 			continue
 		}
-		want := strings.TrimSpace(strings.TrimPrefix(strings.TrimPrefix(a.Anchor, "call? "), "call "))
+		want := strings.TrimSpace(strings.TrimPrefix(strings.TrimPrefix(strings.TrimPrefix(a.Anchor, "call? "), "call! "), "call "))
 		short := shortFuncName(calleeName)
 		if !(short == want || strings.HasSuffix(short, "/"+want) || strings.HasSuffix(short, "."+want) || strings.HasSuffix(short, want) && strings.HasPrefix(want, ".")) {
 			continue
@@ -173,4 +175,17 @@ func (f *Frame) countSend(ch ssa.Value, taken string, st *State) {
 	c := f.val(ch)
 	f.ctx.Fact(fmt.Sprintf("(= %s (ite %s (store %s %s (+ (select %s %s) 1)) %s))", nh, taken, h, c, h, c, h))
 	st.heaps["G_chanSent"] = nh
+}
+
+// hasRequiredAnchor: the contract has a `call!` clause whose call site was not met.
+func (f *Frame) hasRequiredAnchor() bool {
+	if f.top == nil || f.top.contract == nil {
+		return false
+	}
+	for _, a := range f.top.contract.Asserts {
+		if strings.HasPrefix(a.Anchor, "call! ") && !f.top.assertsHit[a.Anchor+"|"+a.Text] {
+			return true
+		}
+	}
+	return false
 }
